@@ -5,13 +5,14 @@ from __future__ import annotations
 import random
 
 MODES = ('async', 'thread', 'inline', 'process')
+ALL_MODES = ('async', 'async', 'thread', 'thread', 'inline', 'inline', 'process', 'process', 'thread_tag', 'custom_tag')
 LITERALS = [None, 0, '', False, 7, 'lit']
 
 DEFAULT = dict(
     n_max=9, max_depth=3,
     p_sw=0.18, p_oneof=0.18, p_rec=0.14, p_share=0.4, p_markless=0.08,
     p_fail=0.12, p_retry=0.2, p_literal=0.08,
-    modes=MODES, inputs=(0, 1, 2, 3),
+    modes=ALL_MODES, inputs=(0, 1, 2, 3),
     hostile=None,
     rec_inner=False,          # allow switch / one-of inside recurrent subgraphs (hostile)
     cand_fail_only=False,
@@ -37,6 +38,7 @@ class Gen:
         self.hostile = prof.get('hostile')
         self.injected = set()
         self.rec_done = {}       # rec consumer -> inner nodes of its subgraph
+        self.dec_after_rec = set()
         self.last_sub = []
 
     def new_node(self, **kw):
@@ -153,8 +155,11 @@ class Gen:
         # decider
         after_rec = None
         sh = self.shareable(visible, in_rec)
-        if sh and rng.random() < 0.3 and False:
-            decider = rng.choice(sh)
+        shared_deciders = [v for v in visible if 'decider' in self.flags[v] and v not in self.dec_after_rec]
+        reuse = None
+        if shared_deciders and rng.random() < self.p.get('p_share_decider', 0.3):
+            reuse = rng.choice(shared_deciders)
+            decider = reuse
         else:
             dn = self.new_node(kind='decider')
             self.flags[dn['id']].add('decider')
@@ -166,8 +171,13 @@ class Gen:
             else:
                 dn['params'].append(['a', ['in', self.pick_dep(visible, depth - 1, in_rec, in_cand)]])
             decider = dn['id']
+        if after_rec is not None:
+            self.dec_after_rec.add(decider)
         ncases = rng.randint(1, 3)
         labels = [f'L{i}' for i in range(ncases)]
+        if reuse is not None:
+            # a second SwitchCase mark on the same switch node: it must have a case for every label
+            labels = [l for l in self.nodes[reuse]['plan']['labels'] if l != 'ZZZ']
         cases = []
         for lab in labels:
             c = self.make(list(visible), depth - 1, in_rec=in_rec, in_cand=in_cand, role='case')
@@ -177,15 +187,18 @@ class Gen:
                 # it) and reads a node inside the subgraph
                 self.nodes[c]['params'].append([f'r{len(self.nodes[c]["params"])}', ['in', rng.choice(self.rec_done[after_rec])]])
         dn = self.nodes[decider]
-        dn['plan']['labels'] = list(labels)
-        if self.hostile == 'switch_unknown_label' and 'switch_unknown_label' not in self.injected:
+        if reuse is None:
+            dn['plan']['labels'] = list(labels)
+        if reuse is None and self.hostile == 'switch_unknown_label' and 'switch_unknown_label' not in self.injected:
             dn['plan']['labels'] = list(labels) + ['ZZZ']
             dn['plan']['label_by_input'] = {str(rng.choice(self.p['inputs'])): 'ZZZ'}
             self.injected.add('switch_unknown_label')
-        self.finish(dn)
-        visible.append(decider)
+        if reuse is None:
+            self.finish(dn)
+            visible.append(decider)
         self.sw += 1
-        return ['sw', f'sw{self.sw}', decider, cases]
+        name = None if rng.random() < self.p.get('p_unnamed_switch', 0.3) else f'sw{self.sw}'
+        return ['sw', name, decider, cases]
 
     def make_oneof(self, visible, depth, in_rec, in_cand):
         rng = self.rng
